@@ -231,8 +231,9 @@ func mkPred[S any](p *predNode) *compose.Lambda {
 }
 
 // mkBranch[S] builds a stream branch below a node with output type S that always
-// selects the node `to` (it reads its copy of the output to the end first).
-func mkBranch[S any](to string) *compose.GraphBranch {
+// selects the node `to` and never the node `alt` (it reads its copy of the output to
+// the end first).
+func mkBranch[S any](to, alt string) *compose.GraphBranch {
 	return compose.NewStreamGraphBranch(func(ctx context.Context, in *schema.StreamReader[S]) (string, error) {
 		defer in.Close()
 		for {
@@ -244,7 +245,7 @@ func mkBranch[S any](to string) *compose.GraphBranch {
 				return "", err
 			}
 		}
-	}, map[string]bool{to: true})
+	}, map[string]bool{to: true, alt: true})
 }
 
 // mkRelay builds a lambda `In -> string` that only passes control on: it reads its
@@ -321,12 +322,12 @@ func mkSucc[T any](rec *succRec) *compose.Lambda {
 }
 
 var (
-	wfFrom = map[reflect.Type]func() *wfHandle{}                  // Workflow[S, string]
-	wfTo   = map[reflect.Type]func() *wfHandle{}                  // Workflow[string, T]
-	wfPair = map[[2]reflect.Type]func() *wfHandle{}               // Workflow[S, T]
-	predOf = map[reflect.Type]func(p *predNode) *compose.Lambda{} // any -> S
-	brOf   = map[reflect.Type]func(to string) *compose.GraphBranch{}  // branch below a node with output S
-	succOf = map[reflect.Type]func(r *succRec) *compose.Lambda{}  // T -> string
+	wfFrom = map[reflect.Type]func() *wfHandle{}                          // Workflow[S, string]
+	wfTo   = map[reflect.Type]func() *wfHandle{}                          // Workflow[string, T]
+	wfPair = map[[2]reflect.Type]func() *wfHandle{}                       // Workflow[S, T]
+	predOf = map[reflect.Type]func(p *predNode) *compose.Lambda{}         // any -> S
+	brOf   = map[reflect.Type]func(to, alt string) *compose.GraphBranch{} // branch below a node with output S
+	succOf = map[reflect.Type]func(r *succRec) *compose.Lambda{}          // T -> string
 )
 
 func rt[T any]() reflect.Type { return reflect.TypeOf((*T)(nil)).Elem() }
